@@ -12,20 +12,22 @@
 (* Events (one per line): e = "q" | "u" | "c" | "d", inst, i, f                          *)
 (*   q  mark_in_flight(i)     u  mark_unqueued(i)     c  completion of i reaped          *)
 (*   d  the batch drops buffer i: f = 1 leaked, f = 0 freed                              *)
+(*   f  the allocation the queued write of i points into was deallocated                 *)
 EXTENDS Naturals, Sequences, FiniteSets, TLC, Json, IOUtils
 
 Rec == ndJsonDeserialize(IOEnv.TRACE)
 
-VARIABLES l, kernel, lastq, flags
-vars == <<l, kernel, lastq, flags>>
+VARIABLES l, kernel, leaked, lastq, flags
+vars == <<l, kernel, leaked, lastq, flags>>
 
 Ev == Rec[l]
 Id(e) == <<e.inst, e.i>>
 
-TInit == l = 1 /\ kernel = {} /\ lastq = <<0, 0>> /\ flags = {}
+TInit == l = 1 /\ kernel = {} /\ leaked = {} /\ lastq = <<0, 0>> /\ flags = {}
 
 TNext ==
   /\ l <= Len(Rec) /\ l' = l + 1
+  /\ leaked' = IF Ev.e = "d" /\ Ev.f = 1 /\ Id(Ev) \in kernel THEN leaked \cup {Id(Ev)} ELSE leaked
   /\ CASE Ev.e = "q" -> kernel' = kernel \cup {Id(Ev)} /\ lastq' = Id(Ev) /\ flags' = {}
        [] Ev.e = "u" -> \* only the push that has just failed may be undone
                         /\ kernel' = IF lastq = Id(Ev) THEN kernel \ {Id(Ev)} ELSE kernel
@@ -33,6 +35,11 @@ TNext ==
        [] Ev.e = "c" -> kernel' = kernel \ {Id(Ev)} /\ lastq' = <<0, 0>> /\ flags' = {}
        [] Ev.e = "d" -> /\ kernel' = kernel \ {Id(Ev)} /\ lastq' = <<0, 0>>
                         /\ flags' = IF Ev.f = 0 /\ Id(Ev) \in kernel THEN {"freed"} ELSE {}
+       \* "f": the memory the queued write points into was returned to the allocator (deallocation log
+       \* of the harness): never while the kernel may own the buffer, and never after it was "leaked"
+       \* for that very reason - leaking a borrowed slice keeps nothing alive
+       [] Ev.e = "f" -> /\ UNCHANGED <<kernel, lastq>>
+                        /\ flags' = IF Id(Ev) \in (kernel \cup leaked) THEN {"freed"} ELSE {}
        [] OTHER -> UNCHANGED <<kernel, lastq, flags>>
 
 TSpec == TInit /\ [][TNext]_vars
